@@ -11,7 +11,9 @@ CLAIMS = {
         'instruction\'s byte order for both) and the fields of an enumeration operand (exactly what its dictionaries give, 0 included). '
         'MatchedOperandSet.generate_bytecode: the part list is exactly prefix codes (later operand first; operand order when reversed), '
         'opcode, suffix codes (operand order; reversed when reversed), opcode suffix, arguments (operand order; reversed exactly when the '
-        'argument order is reversed). Not under contract: the other operand types\' parse_operand; ByteCodePart.get_value is an assumed (deterministic, effect-free) contract; '
+        'argument order is reversed). The parts built by numeric, address, relative-address, register and enumeration operands have their configured widths, '
+        'alignment, byte order and code values; the remaining operand types (indirect / indexed registers, deferred, numeric enumeration, '
+        'numeric bytecode) are not under contract; ByteCodePart.get_value is an assumed (deterministic, effect-free) contract; '
         'int.to_bytes is axiomatised (validated by sampling); x|y, x&y enter only through exact single-bit / mask identities.'),
  'C02': dict(tech='contract-based deductive verification (pyvc + z3): per-line placement block of the first pass, size/emission contracts of every line class',
    text='Block contract on the body of the engine\'s first pass (placement at the zone cursor / origin value / smallest aligned '
@@ -131,7 +133,9 @@ CLAIMS = {
  'C12': dict(tech='contract-based deductive verification (pyvc + z3): exits-iff contracts on every constrained byte-code part and on bit packing',
    text='Exceptional postconditions (raised IFF condition) on the real get_value of the min/max, memory-zone, enumeration, relative-address '
         'and sliced-address parts, and on PackedBits.append_bits / AssembledInstruction.get_bytes (value fits the signed-or-unsigned range of its field width 1..64).',
-   note='Expression evaluation is an assumed deterministic contract; NumericBytecode.__init__ (inverted range) not yet under contract.'),
+   note='Also: the configured min / max and the measured-from-the-last-byte flag are proved to reach the relative-address part unchanged '
+        '(RelativeAddressOperand.parse_operand, RelativeAddressByteCodePart.__init__). Expression evaluation is an assumed deterministic contract; '
+        'NumericBytecode.__init__ (inverted range) is under C19.'),
 }
 NA = {
  'C18': 'relates two source texts through a stack of Python re patterns (\\b, look-ahead); no contract within reach of an SMT-based VC generator decides it (DESIGN.md section 7)',
